@@ -31,6 +31,12 @@ def setup_paths():
     rp = repo_path()
     if rp not in sys.path[:1]:
         sys.path.insert(0, rp)
+    import logging
+
+    lg = logging.getLogger("paramiko")
+    if not lg.handlers:
+        lg.addHandler(logging.NullHandler())
+        lg.propagate = False
     deps = os.path.join(VERIF, ".deps")
     if os.path.isdir(deps) and deps not in sys.path:
         sys.path.append(deps)
@@ -188,7 +194,7 @@ class Ctx:
                 # keep early + some later samples
                 n = len(self.nontrivial)
                 if len(self.samples) < self.max_samples and (n <= 2 or n % 97 == 0):
-                    self.samples.append(_shorten(_enc(case)))
+                    self.samples.append(_shorten(case))
         elif not self.samples:
             pass
         for c in classes:
@@ -425,7 +431,8 @@ def write_evidence(prop, tier, seed, level, rule, merged, wall):
         "wall_s": round(wall, 3),
         "violations": len(merged["unknown"]),
     }
-    d = os.path.join(VERIF, "evidence")
+    # sensitivity runs against a scratch copy must not overwrite the real evidence
+    d = os.path.join(VERIF, "evidence" if repo_path() == "/repo" else "evidence-scratch")
     os.makedirs(d, exist_ok=True)
     path = os.path.join(d, prop + ".json")
     tmp = path + ".tmp"
